@@ -117,6 +117,13 @@ fn same_fci(a: &Fci, b: &Fci) -> bool {
 
 /// one (kind, fmt, requested FCI type) evaluation of a feedback packet carrying `body`
 fn gate_case(l: &mut Local, kind: Kind, fmt: u8, f: F, body: &[u8], pad: u8) {
+    gate_case_x(l, kind, fmt, f, body, pad, true)
+}
+
+/// `strict` = the packet is well-framed with a legal padding, so the packet parser must accept it; otherwise
+/// (a padding count that is not a multiple of 4) the packet parser may refuse, and only "if accepted, then the FCI
+/// is the bytes between the header and the padding" is checked.
+fn gate_case_x(l: &mut Local, kind: Kind, fmt: u8, f: F, body: &[u8], pad: u8, strict: bool) {
     let pkt = packet(kind, fmt, body, pad);
     l.transitions += 1;
     let r = guard::catch(|| observe_as(f, kind, &pkt));
@@ -130,12 +137,29 @@ fn gate_case(l: &mut Local, kind: Kind, fmt: u8, f: F, body: &[u8], pad: u8) {
     };
     let inner = match r {
         Err(e) => {
-            // body lengths here are multiples of 4 and the header is well-formed: the packet parser must accept
-            l.violation("feedback-packet-rejected", || hex_short(&pkt), || format!("{:?}", e));
+            if strict {
+                // body lengths here are multiples of 4 and the header is well-formed: the packet parser must accept
+                l.violation("feedback-packet-rejected", || hex_short(&pkt), || format!("{:?}", e));
+            } else {
+                l.hit("odd padding count: packet refused");
+            }
             return;
         }
         Ok(i) => i,
     };
+    if !strict {
+        // the packet was accepted: it must then report the padding count found in its last byte, which
+        // delimits the FCI
+        let reported = match kind {
+            Kind::Transport => TransportFeedback::parse(&pkt).ok().and_then(|p| p.padding()),
+            Kind::Payload => PayloadFeedback::parse(&pkt).ok().and_then(|p| p.padding()),
+        };
+        if reported != Some(pad) {
+            l.hit("odd padding count: accepted with another padding reading (FCI extent undefined)");
+            return;
+        }
+        l.hit("odd padding count: accepted");
+    }
     let matches_home = f.home() == (kind, fmt);
     match inner {
         Ok(got) => {
@@ -164,12 +188,13 @@ fn gate_case(l: &mut Local, kind: Kind, fmt: u8, f: F, body: &[u8], pad: u8) {
                 // whole NACK/SLI word or FIR entry, an RPSI whose PB fits its bit string, an empty PLI) has a
                 // defined decoding; a parser that refuses it does not follow the RFC. Empty NACK/SLI/FIR lists,
                 // FIR bodies with a trailing half entry and everything else the RFC does not define stay free.
-                let must = match f {
-                    F::Nack | F::Sli => !body.is_empty(),
+                let must = strict
+                    && match f {
+                    F::Nack | F::Sli => !body.is_empty() && body.len() % 4 == 0,
                     F::Fir => !body.is_empty() && body.len() % 8 == 0,
                     F::Rpsi => reference(f, body).is_some(),
                     F::Pli => body.is_empty(),
-                };
+                    };
                 if must {
                     l.violation(
                         format!("well-formed-fci-rejected:{}", f.name()),
@@ -254,7 +279,7 @@ pub fn c15(ctx: &mut Ctx) {
     ctx.bound("SLI single words", if thorough { "all 2^32 words" } else { "walk alphabet + 37 high halves (16-bit walk) x all 2^16 low halves" });
     ctx.bound("lists", "NACK 2-3 words from a 12-word boundary set; FIR 0..=3 entries; RPSI byte0 x byte1 (all 65536) x lengths 4..=36; PLI 0/4/8");
     ctx.bound("gating", "2 kinds x 32 formats x 5 FCI types x paddings {0,4,8,252} on 60 boundary bodies");
-    ctx.assume("word lists longer than 3 words only through the builder-made packets of C05");
+    ctx.assume("word lists between 4 and 254 words only through the builder-made packets of C05");
 
     // NACK single words
     if thorough {
@@ -360,6 +385,55 @@ pub fn c15(ctx: &mut Ctx) {
     // every gate is also tried with the padding bit set (paddings 4, 8, 252): the format number shares its byte
     // with the padding bit
     ctx.run_space("all-gates-x-boundary-bodies-x-padding", ng * 4, move |idx, l| all_gates_case(l, &gate_bodies[(idx / 4) as usize], [0u8, 4, 8, 252][(idx % 4) as usize]));
+    // padding counts that are not a multiple of 4 (the parsers tolerate them): the FCI is then a byte string whose
+    // length is not a multiple of 4, ending where the padding starts
+    let odd_pads: Vec<u8> = (1..=15u8).filter(|p| p % 4 != 0).collect();
+    let first: [u8; 6] = [0x00, 0x08, 0x10, 0x60, 0xFF, 0x03];
+    let nop = odd_pads.len() as u64;
+    ctx.bound("odd padding counts", "FCI lengths 0..=17 x padding counts {1,2,3,5,6,7,9,10,11,13,14,15} (where the sum is a multiple of 4) x 6 first bytes x 5 FCI types under their own gate");
+    ctx.run_space("odd-padding-counts", 18 * nop * 6 * 5, move |idx, l| {
+        let f = FS[(idx % 5) as usize];
+        let b0 = first[((idx / 5) % 6) as usize];
+        let pad = odd_pads[((idx / 30) % nop) as usize];
+        let blen = (idx / (30 * nop)) as usize;
+        l.evals += 1;
+        if (blen + pad as usize) % 4 != 0 {
+            l.hit("(length + padding not a multiple of 4: no such packet)");
+            return;
+        }
+        l.states += 1;
+        let mut body: Vec<u8> = (0..blen).map(|i| (i as u8).wrapping_mul(37).wrapping_add(0x41)).collect();
+        if blen > 0 {
+            body[0] = b0;
+        }
+        l.sample(|| format!("{} fci {} + {} padding bytes", f.name(), hex_short(&body), pad));
+        l.nontrivial(crate::engine::run::fp_combine(fp_bytes(&body), (f as u64) << 8 | pad as u64));
+        let (kind, fmt) = f.home();
+        gate_case_x(l, kind, fmt, f, &body, pad, false);
+    });
+    // long lists: 255..65533 words (the largest FCI a packet can carry), where a narrow index or offset would wrap
+    let sizes: [usize; 9] = [255, 256, 257, 16_383, 16_384, 16_385, 32_768, 65_532, 65_533];
+    ctx.bound("long lists", "NACK / SLI lists of {255,256,257,16383,16384,16385,32768,65532,65533} words, FIR lists of half as many entries, RPSI strings of 4x as many bytes; 3 fills");
+    ctx.run_space("long-lists", 9 * 3 * 4, move |idx, l| {
+        let f = [F::Nack, F::Sli, F::Fir, F::Rpsi][(idx % 4) as usize];
+        let fill = (idx / 4) % 3;
+        let mut words = sizes[(idx / 12) as usize];
+        if f == F::Fir {
+            words &= !1;
+        }
+        let mut body = vec![0u8; 4 * words];
+        for (i, b) in body.iter_mut().enumerate() {
+            *b = match fill {
+                0 => 0x00,
+                1 => 0xFF,
+                _ => ((i as u32 / 4).wrapping_mul(0x9E37_79B1).rotate_left(8 * (i as u32 % 4)) >> 11) as u8,
+            };
+        }
+        if f == F::Rpsi {
+            body[0] = [0u8, 8, 23][fill as usize];
+        }
+        home_case(l, f, &body, 0);
+    });
     // direct FCI parsers
     let sp = bytes::fci_raw_space();
     let get = &sp.get;
